@@ -27,7 +27,7 @@ LEVEL_TEXT = (
     "ConstantExpressionEvaluator, CContext.pack) yields exactly the little-endian image of that value converted to the destination type "
     "for a global initialiser of each integer type, the value converted to the promoted controlling type for a case label, and the "
     "value itself for an enumerator and an array size; the typing inserted by the semantics equals C's typing for every such "
-    "expression; pack never raises for any integer. Proved after two fix commits in /repo (evaluator/pack; integer typing); the pre-fix "
+    "expression; pack never raises for any integer. Proved after four fix commits in /repo (evaluator/pack; integer typing; ?: in is_const_expr; array dimension type); the pre-fix "
     "code is kept as a model with Lean-proved counterexamples. The model is hand-written; its operator tables, ranks, sizes, type sets "
     "and pack formats are re-checked (decide) against a dump of the live objects on every run, and it is tied to the source by a "
     "differential run of the real c_to_ir on generated sources."
@@ -42,7 +42,7 @@ LEVEL_NOTE = (
 TECHNIQUE = ("Lean 4 proof (structural induction over expression trees; finite case analysis over the 11x11 type pairs; omega on the "
              "wrap arithmetic; bitwise operators by testBit extensionality) about a hand model + table translation (decide against "
              "dumped live tables) + differential correspondence of the real front-end with the model")
-RULE = ("trees: fixed corpus (all past defects, boundaries) then random trees of depth <= 4 (quick) / 5 (thorough) over constants "
+RULE = ("trees: fixed corpus (all past defects, boundaries) then random trees of depth <= 4 (quick, 600 trees) / 5 (thorough, 4000 trees) over constants "
         "{0..12, 2^k-1, 2^k, 2^k+1 at k=7,8,15,16,31,32,63,64, random bits, values without a type} x bases x suffixes, character "
         "constants 0..255, all operators, casts to the 11 types; contexts: initialiser of each of the 11 types, case label under each "
         "controlling type, enumerator, array size. distinct = distinct (context, type, tree). non-trivial = the expression has a "
